@@ -692,7 +692,7 @@ fn copy_tag_skip<R: Read + ?Sized, W: Write + ?Sized>(r: &mut R, w: &mut W) -> i
     Ok((n1 + n2) as u64)
 }
 
-//@ props: C02 C04 C05 C13
+//@ props: C02 C04 C05 C13 C14
 //@ scaled: yes
 //@ functions: layers::encrypt::EncryptionLayerInternal::load_in_cache_unauthenticated (real body); AesGcm256::decrypt_unauthenticated over the model keystream
 //@ bounds: SCALED build (chunk = 4 bytes, tag 16); source delivering everything asked; inner length n <= 3*20+64, any start q <= n (every remaining length incl. a cut inside data or inside a tag), any chunk counter, arbitrary previous cache
@@ -710,7 +710,7 @@ fn h_enc_load_unauth_refines() {
     load_unauth_body(false);
 }
 
-//@ props: C02 C04 C05 C13
+//@ props: C02 C04 C05 C13 C14
 //@ scaled: yes
 //@ functions: layers::encrypt::EncryptionLayerInternal::load_in_cache_unauthenticated (real body); AesGcm256::decrypt_unauthenticated over the model keystream
 //@ bounds: SCALED build (chunk = 4 bytes, tag 16); source one of whose reads delivers at most 7 bytes (auth: the chunk read; unauth: the read skipping the tag); inner length n <= 3*20+64, any start q <= n (every remaining length incl. a cut inside data or inside a tag), any chunk counter, arbitrary previous cache
@@ -971,7 +971,7 @@ fn h_enc_fs_read_auth() {
     core::mem::forget(r);
 }
 
-//@ props: C04 C05 C02
+//@ props: C04 C05 C02 C14
 //@ functions: <layers::encrypt::EncryptionLayerFailSafeReader<R> as std::io::Read>::read (unauthenticated mode); layers::encrypt::EncryptionLayerInternal::read_internal_unauthenticated
 //@ bounds: production constants; ANY inner length n < 2^{NBITS}; one read from a state holding chunk i (any cache offset); buffers 1..=8
 //@ stubs: load_in_cache_unauthenticated -> load contract; alloc::fmt::format; From<mla::Error> for io::Error
